@@ -34,6 +34,9 @@ def first_diff(a, b):
 
 
 def gen_any_spec(rng, amorph_share=0.2):
+    hot = [k for k in specs.ALL_KINDS if k in cm.FOCUS]
+    if hot and rng.random() < 0.6:      # change-directed: kinds whose source differs from the recorded baseline
+        return specs.gen_spec(rng, hot)
     if rng.random() < amorph_share:
         return specs.gen_amorph_spec(rng)
     return specs.gen_spec(rng)
